@@ -72,6 +72,17 @@ func c12Scenarios(batch int) []Scenario {
 			wantHeader(e, x, "R", 3, viol)
 			x.Outcome = res(e, "R").String()
 		}})
+	// S8: empty store: the reader waits for the last height of the very first batch
+	out = append(out, Scenario{Name: "S8-empty-store-first-batch", Batch: batch, Preload: 0,
+		Build: func(e *Env) {
+			ctx, _ := context.WithTimeout(bg, readerDeadline) //nolint
+			reader(e, "R", ctx, 2)
+			e.Thread("W", func() { e.Note("Werr", e.St.Append(bg, e.C.Slice(1, 2)...)) })
+		},
+		Check: func(e *Env, x *Exec, viol func(string, string, ...any)) {
+			wantHeader(e, x, "R", 2, viol)
+			x.Outcome = res(e, "R").String()
+		}})
 	// S2: reader for a height that is appended non-contiguously first
 	out = append(out, Scenario{Name: "S2-gapped-then-filled", Batch: batch, Preload: 1,
 		Build: func(e *Env) {
@@ -208,7 +219,7 @@ func runScheduleProperty(t *testing.T, id string, scenarios func(batch int) []Sc
 	claimed := vk.Pick(run, 1, 2)
 	run.Set("preemption_bound_claimed", claimed)
 	nslots := len(batches) * len(scenarios(batches[0]))
-	slot := vk.Pick(run, 10*time.Minute, 70*time.Minute) / time.Duration(nslots)
+	slot := vk.Pick(run, 10*time.Minute, 45*time.Minute) / time.Duration(nslots)
 	run.Set("time_slot_per_scenario_s", slot.Seconds())
 	var total int64
 	per := map[string]any{}
